@@ -254,6 +254,7 @@ type genKnobs struct {
 	allowExcl   bool
 	chunkedPct  int // percentage of port scans with > 200 ranges
 	remotePct   int // percentage of targets outside the on-link subnet
+	forceMode   string
 }
 
 func genPorts(p picker, budget int, chunkedPct int) []portRange {
@@ -441,6 +442,9 @@ func genScan(p picker, k genKnobs) *scanSpec {
 		s.Mode = []string{"subnet", "subnet", "ips"}[p.n("mode", 3)]
 	default:
 		s.Mode = []string{"subnet", "subnet", "pairs", "ips-ports"}[p.n("mode", 4)]
+	}
+	if k.forceMode != "" {
+		s.Mode = k.forceMode
 	}
 	remote := k.remotePct
 	if !s.app() && s.Kind != "arp" && k.allowVPN && p.pct("vpn", 15) {
